@@ -48,7 +48,7 @@ Fixpoint ws (fuel : nat) (care : bool) (s : str) : option byte * str :=
   end end.
 
 (* ---------- strings ---------- *)
-Inductive perr := EEof | EString | EComma | ESemi | EFuel.
+Inductive perr := EEof | EString | EComma | ESemi | EFuel | EDeep.
 
 Definition esc_simple (n : byte) : option byte :=
   if beq n x61 then Some x07 else if beq n x62 then Some x08 else if beq n x66 then Some x0c else if beq n x6e then Some x0a
@@ -169,8 +169,12 @@ Fixpoint pcomma (fuel : nat) (s : str) (acc : list str) : res (list str * str) :
          end
   end end.
 
-(* entry: returns updated kids and rest; `top` = parent is the file root *)
-Fixpoint entry (fuel : nat) (top : bool) (s : str) (kids : list (str * val)) : res (list (str * val) * str) :=
+(* objects may be nested at most CONF_MAX_DEPTH deep (src/config.c) *)
+Definition max_depth : nat := 64.
+
+(* entry: returns updated kids and rest; `d` = parse->depth, the number of objects that enclose this entry
+   (d = 0: the parent is the file root) *)
+Fixpoint entry (fuel : nat) (d : nat) (s : str) (kids : list (str * val)) : res (list (str * val) * str) :=
   match fuel with O => inl EFuel | S f =>
   match pstring fuel s with
   | None => inr (kids, [])
@@ -178,7 +182,7 @@ Fixpoint entry (fuel : nat) (top : bool) (s : str) (kids : list (str * val)) : r
   | Some (inr (name, r0)) =>
     let tail (kids' : list (str * val)) (r : str) : res (list (str * val) * str) :=
       match ws fuel true r with
-      | (Some c, r') => if (nb c =? 125) && negb top then inr (kids', c :: r')
+      | (Some c, r') => if (nb c =? 125) && negb (Nat.eqb d 0) then inr (kids', c :: r')
                         else if (nb c =? 59) || (nb c =? 10) then inr (kids', r') else inl ESemi
       | (None, _) => inl ESemi
       end in
@@ -191,13 +195,14 @@ Fixpoint entry (fuel : nat) (top : bool) (s : str) (kids : list (str * val)) : r
         | inr (items, r2) => tail (upsert name 2 (fun _ => VList items) kids) r2
         end
       else if nb c =? 123 then
+        if Nat.leb max_depth d then inl EDeep else   (* ++parse->depth > CONF_MAX_DEPTH: PARSE_TOO_DEEP, before anything of the object is read *)
         let old := match lookup name 3 kids with Some (VObj k) => k | _ => [] end in
         let fix body (fu : nat) (r : str) (ks : list (str * val)) : res (list (str * val) * str) :=
           match fu with O => inl EFuel | S fu' =>
           match ws fuel false r with
           | (None, _) => inl EEof
           | (Some c2, r2) => if nb c2 =? 125 then inr (ks, r2)
-                             else match entry f false (c2 :: r2) ks with
+                             else match entry f (S d) (c2 :: r2) ks with
                                   | inl e => inl e
                                   | inr (ks', r3) => body fu' r3 ks'
                                   end
@@ -234,7 +239,7 @@ Fixpoint entries (fuel : nat) (s : str) (kids : list (str * val)) : res (list (s
   match fuel with O => inl EFuel | S f =>
   match s with
   | [] => inr kids
-  | _ => match entry fuel true s kids with inl e => inl e | inr (k', r) => entries f r k' end
+  | _ => match entry fuel 0 s kids with inl e => inl e | inr (k', r) => entries f r k' end
   end end.
 
 Definition parse (data : str) : res (list (str * val)) :=
